@@ -8,7 +8,9 @@ history `A` and the calls `C` made since. -/
 structure SInv (s : Store) (d : Disk) (A C : List Rec) : Prop where
   ewf : s.idx.EWF
   rwf : s.idx.RWF
-  cov : Covers s.idx (pairsOf d.files)
+  /-- (while the writer is not blocked: a blocked store never runs the cleanup, and its directory may
+  hold a batch that was never indexed) -/
+  cov : s.repairRequired = false → Covers s.idx (pairsOf d.files)
   pruned : s.idx.pruned = maxPrune A
   view : ∀ h, maxPrune A < h → s.idx.view h = entriesOf h A
   pend : Equiv (maxPrune A) s.pending C
@@ -17,13 +19,18 @@ structure SInv (s : Store) (d : Disk) (A C : List Rec) : Prop where
   wrr : s.writer ≠ none → s.repairRequired = false
   next : ∀ F ∈ d.files, F.num < s.nextWAL
   /-- `nextBatchSeqNum` is above every sequence number on disk (and positive) -/
-  seqNext : 0 < s.nextSeq ∧ ∀ F ∈ d.files, ∀ q ∈ F.seqs, q < s.nextSeq
+  seqNext : s.repairRequired = false → 0 < s.nextSeq ∧ ∀ F ∈ d.files, ∀ q ∈ F.seqs, q < s.nextSeq
   nogarb : s.repairRequired = false → ∀ F ∈ d.files, F.garbage = false
 
 structure Inv (sys : Sys) : Prop where
-  d : DInv sys.disk sys.acked
+  /-- the directory holds the acknowledged history — and the batch in limbo, if there is one -/
+  d : DInv sys.disk (sys.acked ++ sys.limbo)
   s : sys.alive = true → sys.st.closed = false → SInv sys.st sys.disk sys.acked sys.calls
   rem : ∀ F ∈ sys.removed, Low (maxPrune sys.acked) (recsOfFile F)
+  /-- while a batch is in limbo the writer is blocked and has something to write: every flush
+  returns "not committed" without touching the directory -/
+  lim : sys.limbo ≠ [] → sys.alive = true → sys.st.closed = false →
+    sys.st.repairRequired = true ∧ sys.st.pending ≠ []
 
 /-! #### small facts about directories -/
 
